@@ -157,24 +157,51 @@ Proof.
   rewrite Hn, Hl, Nat.eqb_refl. now apply map_fst_combine.
 Qed.
 
+Lemma exec_observe_some {P} sup known ci (pending : option (list (N * P))) g' :
+  exec_observe sup known (Some ci) pending = Ok (Some g') ->
+  exists all g, known = Some all /\ pending = Some g /\
+    g' = filter (fun kv => memN (fst kv) all && negb (src_cursed ci (fst kv))) g.
+Proof.
+  unfold exec_observe. destruct (N.eqb sup 2); [discriminate|]. destruct (N.eqb sup 0); [discriminate|].
+  destruct known as [all|]; [|discriminate]. destruct (ci_global ci || ci_dest ci); [discriminate|].
+  destruct pending as [g|]; [|discriminate]. intros H. inversion H. exists all, g. auto.
+Qed.
+
+(* what execute observes are reports of known sources that the reader does not report cursed *)
+Theorem exec_observed_sources {P} sup all ci (pending : option (list (N * P))) g' c :
+  exec_observe sup (Some all) (Some ci) pending = Ok (Some g') ->
+  In c (map fst g') -> In c all /\ src_cursed ci c = false.
+Proof.
+  intros H Hin. destruct (exec_observe_some _ _ _ _ _ H) as [all' [g [E [_ ->]]]]. inversion E; subst all'.
+  apply in_map_iff in Hin as [[k p] [Ek Hin]]. cbn in Ek. subst k.
+  apply filter_In in Hin as [_ Hf]. cbn [fst] in Hf. apply andb_true_iff in Hf as [H1 H2].
+  split; [now apply memN_In| now apply negb_true_iff].
+Qed.
+
 Theorem exec_cursed_source_left_out {P} sup known ci (pending : option (list (N * P))) g' c :
   exec_observe sup known (Some ci) pending = Ok (Some g') ->
   src_cursed ci c = true -> ~ In c (map fst g').
 Proof.
-  unfold exec_observe. destruct (N.eqb sup 2); [discriminate|]. destruct (N.eqb sup 0); [discriminate|].
-  destruct known; [|discriminate]. destruct (ci_global ci || ci_dest ci); [discriminate|].
-  destruct pending as [g|]; [|discriminate]. intros H Hc Hin. inversion H; subst g'.
-  apply in_map_iff in Hin as [[k p] [E Hin]]. cbn in E. subst k.
-  apply filter_In in Hin as [_ Hf]. cbn [fst] in Hf. rewrite Hc in Hf. discriminate.
+  intros H Hc Hin. destruct (exec_observe_some _ _ _ _ _ H) as [all [g [-> _]]].
+  destruct (exec_observed_sources _ _ _ _ _ _ H Hin) as [_ Hf]. congruence.
 Qed.
 
-Theorem exec_other_sources_kept {P} sup known ci (g : list (N * P)) g' kv :
-  exec_observe sup known (Some ci) (Some g) = Ok (Some g') ->
-  In kv g -> src_cursed ci (fst kv) = false -> In kv g'.
+(* full strength: with the reader answering for the known sources, ANY chain whose subject is cursed is absent *)
+Theorem exec_cursed_subject_left_out {P} sup S dest all (pending : option (list (N * P))) g' c :
+  exec_observe sup (Some all) (Some (curse_info_of S dest all)) pending = Ok (Some g') ->
+  In (subject_of_chain c) S -> ~ In c (map fst g').
 Proof.
-  unfold exec_observe. destruct (N.eqb sup 2); [discriminate|]. destruct (N.eqb sup 0); [discriminate|].
-  destruct known; [|discriminate]. destruct (ci_global ci || ci_dest ci); [discriminate|].
-  intros H Hin Hc. inversion H; subst g'. apply filter_In. split; [assumption| now rewrite Hc].
+  intros H Hs Hin. destruct (exec_observed_sources _ _ _ _ _ _ H Hin) as [Hk Hf].
+  assert (Ht : src_cursed (curse_info_of S dest all) c = true) by (apply src_cursed_iff; auto). congruence.
+Qed.
+
+Theorem exec_other_sources_kept {P} sup all ci (g : list (N * P)) g' kv :
+  exec_observe sup (Some all) (Some ci) (Some g) = Ok (Some g') ->
+  In kv g -> In (fst kv) all -> src_cursed ci (fst kv) = false -> In kv g'.
+Proof.
+  intros H Hin Hk Hc. destruct (exec_observe_some _ _ _ _ _ H) as [all' [g0 [E1 [E2 ->]]]].
+  inversion E1; inversion E2; subst. apply filter_In. split; [assumption|].
+  rewrite Hc. cbn [negb]. rewrite andb_true_r. now apply memN_In.
 Qed.
 
 (* ---------- acceptance ---------- *)
@@ -236,11 +263,11 @@ Theorem exec_accept_unaffected n d reports ci :
   exec_accept n d reports (Some ci) = exec_should_accept n d (N.of_nat (length reports)) 0.
 Proof. intros G D H. unfold exec_accept. now rewrite report_not_cursed. Qed.
 
-(* execute asks about its known sources only: a cursed chain outside that list stays in the observation *)
-Theorem exec_unknown_cursed_source_kept :
+(* before the repair execute deleted only what the reader reported: a cursed chain outside the known list stayed *)
+Theorem exec_unfixed_unknown_cursed_source_kept :
   exists S dest known (g : list (N * N)),
     In (subject_of_chain 7) S /\
-    exec_observe 1 (Some known) (Some (curse_info_of S dest known)) (Some g) = Ok (Some g) /\ In 7%N (map fst g).
+    exec_observe_unfixed 1 (Some known) (Some (curse_info_of S dest known)) (Some g) = Ok (Some g) /\ In 7%N (map fst g).
 Proof.
   exists [subject_of_chain 7], 900%N, [5%N], [(5%N, 1%N); (7%N, 2%N)].
   split; [now left|]. split; [vm_compute; reflexivity| right; now left].
@@ -253,7 +280,7 @@ Example curse_example :
   src_cursed ci 5 = true /\ src_cursed ci 3 = false /\ ci_dest ci = false /\ ci_global ci = false /\
   observe_offramp 1 (Some [8; 5; 3]%N) (Some ci) (fun l => Some (map (fun c => c + 100) l))%N
     = [(3, 103); (8, 108)]%N /\
-  exec_observe 1 (Some [3; 5; 8]%N) (Some ci) (Some [(5, 1); (8, 2)]%N) = Ok (Some [(8, 2)]%N) /\
+  exec_observe 1 (Some [3; 5; 8]%N) (Some ci) (Some [(5, 1); (8, 2); (21, 4)]%N) = Ok (Some [(8, 2)]%N) /\
   commit_accept true [3; 5]%N 0 0 0 (Some ci) true false 0 = Ok false /\
   commit_accept true [3; 8]%N 0 0 0 (Some ci) true false 0 = Ok true /\
   exec_accept false true [5]%N (Some ci) = Ok false /\
